@@ -121,7 +121,7 @@ def simulate(sc):
     sim = vsim.Sim(seed=sc["seed"] * 7919 + sc["idx"], maxdelay=0, loopback=True)
     obs = {"blocks": [], "escapes": [], "api_raised": [], "notes": []}
     saved = []
-    st = {"zc": None, "on": False, "browsers": [], "lookups": [], "users": [], "cbs": [], "strict": True}
+    st = {"zc": None, "on": False, "browsers": [], "lookups": [], "users": [], "cbs": [], "strict": True, "seen": set()}
 
     def patch(cls, name, fn):
         orig = getattr(cls, name)
@@ -160,12 +160,14 @@ def simulate(sc):
 
     def w_add(orig):
         def f(self, info):
+            st["seen"].add("g")
             log("g", strict=st["strict"], **svc_fields(info))
             return orig(self, info)
         return f
 
     def w_update(orig):
         def f(self, info):
+            st["seen"].add("u")
             log("u", **svc_fields(info))
             return orig(self, info)
         return f
@@ -174,10 +176,26 @@ def simulate(sc):
         def f(self, info):
             infos = info if isinstance(info, list) else [info]
             if st["on"] and self is st["zc"].registry:
+                st["seen"].add("x")
                 for i in infos:
                     log("x", **svc_fields(i))
             return orig(self, info)
         return f
+
+    def w_api(op):
+        """the API coroutine must have reached the registry operation the model's block performs: if it returned normally without it,
+        the block is logged after the fact (and the comparison shows the registry the code did not touch)"""
+        def w(orig):
+            async def f(self, info, *a, **k):
+                if self is not st["zc"] or not st["on"]:
+                    return await orig(self, info, *a, **k)
+                st["seen"].discard(op)
+                r = await orig(self, info, *a, **k)
+                if op not in st["seen"]:
+                    log(op, late=True, **dict(svc_fields(info), **({"strict": st["strict"]} if op == "g" else {})))
+                return r
+            return f
+        return w
 
     def w_addl(orig):
         def f(self, listener, question):
@@ -260,6 +278,10 @@ def simulate(sc):
         patch(regm.ServiceRegistry, "async_add", w_add)
         patch(regm.ServiceRegistry, "async_update", w_update)
         patch(regm.ServiceRegistry, "async_remove", w_remove)
+        import zeroconf._core as core
+        patch(core.Zeroconf, "async_register_service", w_api("g"))
+        patch(core.Zeroconf, "async_update_service", w_api("u"))
+        patch(core.Zeroconf, "async_unregister_service", w_api("x"))
         patch(rmm.RecordManager, "async_add_listener", w_addl)
         patch(rmm.RecordManager, "async_remove_listener", w_reml)
         patch(inf.ServiceInfo, "async_request", w_request)
